@@ -28,12 +28,12 @@ def canon(x):
     return x
 
 
-def run_sessions(ctx, sessions):
+def run_sessions(ctx, sessions, variant=None):
     """sessions: list of (decls, [expr text]); returns per session list of (I, M, S, P)"""
     lines = [d + "|" + "|".join("e:" + hx(e) for e in es) for d, es in sessions]
     parts = list(chunks(lines, max(1, len(lines) // 16 + 1)))
     def work(part):
-        rc, h, err = ctx.harness_lines("promela", part, timeout=1800)
+        rc, h, err = ctx.harness_lines("promela", part, variant=variant, timeout=1800)
         if rc != 0 or len(h) != len(part): raise BrokenTie("harness", "uvharness promela rc=%s %d/%d" % (rc, len(h), len(part)))
         return h, ctx.driver_lines("promela", part, timeout=1800)
     with ThreadPoolExecutor(16) as ex: res = list(ex.map(work, parts))
@@ -45,7 +45,7 @@ def run_sessions(ctx, sessions):
             # a crash inside the session: re-run the expressions one by one
             hs = []
             for e in es:
-                rc, one, _ = ctx.harness_lines("promela", [decl + "|e:" + hx(e)])
+                rc, one, _ = ctx.harness_lines("promela", [decl + "|e:" + hx(e)], variant=variant)
                 hs.append(one[0])
         row = []
         for e, a, b in zip(es, hs, ds):
@@ -56,13 +56,24 @@ def run_sessions(ctx, sessions):
 
 
 def run(ctx):
-    ctx.build_repo(("plain",)); ctx.harness = ctx.build_harness("plain"); ctx.harnesses = {"plain": ctx.harness}
+    ctx.build_repo(("plain", "asan")); ctx.harness = ctx.build_harness("plain"); ctx.harnesses = {"plain": ctx.harness, "asan": ctx.build_harness("asan")}
     # regenerate the probed tables from the compiled parser/evaluator, then re-check the Lean library
     try:
-        promela_tables.generate(ctx.harness, os.path.join(LEAN, "UscxmlVerif", "Generated", "PromelaPrec.lean"))
+        promela_tables.generate(ctx.harness, os.path.join(LEAN, "UscxmlVerif", "Generated", "PromelaPrec.lean"), ub_harness=ctx.harnesses["asan"])
     except RuntimeError as e:
         raise BrokenTie("translate-promela", str(e))
-    ctx.build_lean()
+    # undefined behaviour found by the probes is a failing input in its own right (the regenerated
+    # table then no longer satisfies `probed_wraps`, so the library does not build either)
+    for (st, ex, want), got in [(p, o) for p, o in zip(promela_tables.UB_PROBES, promela_tables.LAST_UB)]:
+        if not (got == want or (want == "err" and got.startswith("err"))):
+            ctx.violation("ub-%d" % len(ctx.violations), "promela-overflow", ["%s|e:%s" % (st, hx(ex))],
+                          detail="on the UBSan build `%s` with %s gives %s; 32 bit Promela arithmetic: %s" % (ex, st, got, want))
+            if len(ctx.violations) >= 3: break
+    try:
+        ctx.build_lean()
+    except BrokenTie:
+        if ctx.violations: return
+        raise
     ctx.audit(THEOREMS, LEAN_FILES)
     quick = ctx.tier == "quick"
     exprs = []
@@ -102,6 +113,26 @@ def run(ctx):
     st["distinct"] = len(seen)
     ctx.add_suite("promela-eval", **st)
     ctx.sample({"decls": sessions[0][0], "expressions": sessions[0][1][:6]})
+    # ---- 32 bit wrap-around and shift ranges, on the UBSan build (undefined behaviour ends the child)
+    big = [pexpr.rand_expr_big(ctx.rng, ctx.rng.choice([1, 2, 3, 4])) for _ in range(3000 if quick else 100000)]
+    btexts = [pexpr.pfull(e) for e in big]
+    BIGDECLS = ["a=2147483647,b=-2147483647,c=-1,arr[4]", "a=-2147483647,b=65535,c=2,arr[4]", "a=1073741824,b=3,c=-2,arr[4]"]
+    bsessions = [(BIGDECLS[i % 3], part) for i, part in enumerate(chunks(btexts, 40))]
+    bres = run_sessions(ctx, bsessions, variant="asan")
+    st2 = dict(inputs=0, agree=0, values=0, errors=0, wrapped=0, violations=0)
+    for (decl, es), row in zip(bsessions, bres):
+        for e, (I, M, S, P) in zip(es, row):
+            st2["inputs"] += 1
+            if I.startswith("v:"):
+                st2["values"] += 1
+                if abs(int(I[2:])) > 1 << 30: st2["wrapped"] += 1
+            else: st2["errors"] += 1
+            if I == M and I == S: st2["agree"] += 1; continue
+            st2["violations"] += 1
+            if len(ctx.violations) < 4:
+                ctx.violation("overflow-%d" % len(ctx.violations), "promela-overflow", ["%s|e:%s" % (decl, hx(e))],
+                              detail="with %s the datamodel (UBSan build) evaluates `%s` to %s; 32 bit Promela/C: %s; model of the code: %s" % (decl, e, I, S, M))
+    ctx.add_suite("promela-overflow", **st2)
     if broken and not ctx.violations:
         decl, e, I, M = broken[0]
         ctx.violation("correspondence", "promela-eval", ["%s|e:%s" % (decl, hx(e))], found_input=False,
@@ -109,4 +140,4 @@ def run(ctx):
     ctx.coverage["evaluations"] = st["inputs"]
     ctx.coverage["distinct_nontrivial"] = st["distinct"]
     ctx.coverage["rule"] = "all expression trees of depth <= 2 over 15 binary operators, !, unary minus, 5 leaves (sampled in the quick tier) and random trees up to depth 5, each printed with minimal and with full parenthesisation, under 3 variable valuations; distinct = distinct (valuation, text) pairs"
-    ctx.assumptions += ["no int overflow (small operands, shift counts 0..3)", "the compiled LALR tables behave as an operator-precedence parser with the probed matrix (validated by comparing results, not proved)"]
+    ctx.assumptions += ["literals above INT_MAX are outside the generated expressions", "the compiled LALR tables behave as an operator-precedence parser with the probed matrix (validated by comparing results, not proved)"]
